@@ -61,6 +61,11 @@ type Case struct {
 	SafeRanged bool `json:"safe_ranged,omitempty"`
 	// NoFaults restricts the case to the fault-free pass.
 	NoFaults bool `json:"no_faults,omitempty"`
+	// LineBuf, when > 0, is the buffer size of the line reader that loads the
+	// history and stash files (a tuning constant, 4096 in the source): with a
+	// small buffer the block boundaries of the loader fall inside and exactly
+	// at the end of lines of ordinary files.
+	LineBuf int `json:"line_buf,omitempty"`
 }
 
 type engine struct {
@@ -143,7 +148,10 @@ var settingValues = map[string][]string{
 // |symbols| and character literals (a bare non-ASCII symbol is a parse error
 // in slip, so a user could never have evaluated such a form).
 var atoms = []string{"x", "foo", "bar-baz", "|λ|", "|größe x|", `"日本"`, "42", "-7", "3.5", `"str"`, `"a b"`, `"üñí"`,
-	":key", "'q", "#\\a", "#\\ü", "nil", "t", `"semi;colon"`, `"q\"uote"`, "; trailing comment"}
+	":key", "'q", "#\\a", "#\\ü", "nil", "t", `"semi;colon"`, `"q\"uote"`,
+	// delimiters where they do not delimit: inside block comments, |symbols| and strings
+	"#| todo :( |#", "#| a ) b |#", "|open(|", "|close) x|", `"paren ( in string"`, `") ("`, `"#| not a comment"`, "#| \" |#", "|semi;|",
+	"; trailing comment"}
 var heads = []string{"defun", "let", "+", "list", "setq", "format", "when", "car", "princ"}
 
 func avoids(avoid []harness.Finding, trig string) bool {
@@ -155,7 +163,19 @@ func avoids(avoid []harness.Finding, trig string) bool {
 	return false
 }
 
+// genForm draws forms until one is a single readable form (the generator
+// places delimiters inside comments, |symbols| and strings; what the slip
+// reader does not accept as one form could not have been entered).
 func genForm(r *tape.Rand, avoid []harness.Finding, stash bool) []string {
+	for try := 0; try < 20; try++ {
+		if f := genForm1(r, avoid, stash); readable(f) {
+			return f
+		}
+	}
+	return []string{"(list 1 2)"}
+}
+
+func genForm1(r *tape.Rand, avoid []harness.Finding, stash bool) []string {
 	nlines := 1 + r.Intn(4)
 	if r.Pct(50) {
 		nlines = 1
@@ -215,6 +235,9 @@ func (e *engine) Generate(seed uint64, idx int, tier string, avoid []harness.Fin
 		n = 2 + r.Intn(6) // many short sequences
 	}
 	var c Case
+	if r.Pct(55) {
+		c.LineBuf = []int{16, 17, 19, 24, 32, 33, 48, 64, 100, 128}[r.Intn(10)]
+	}
 	limit := 3 + r.Intn(10)
 	if r.Pct(20) {
 		limit = 10 + r.Intn(30)
@@ -850,6 +873,11 @@ func (e *engine) Execute(raw json.RawMessage) (vd harness.Verdict) {
 	}
 	a := &acc{faults: map[string]int{}, probes: map[string]int{}}
 	e.safeRanged = c.SafeRanged
+	simos.SetKnob("linereader", c.LineBuf)
+	defer simos.SetKnob("linereader", 0)
+	if c.LineBuf > 0 {
+		a.probes["cases_with_small_line_buffer"]++
+	}
 	defer func() {
 		vd.Hashes, vd.Evals, vd.Faults, vd.Probes = a.hashes, a.evals, a.faults, a.probes
 	}()
